@@ -188,6 +188,11 @@ def op_consts(cmd):
             out["consts"][c.name] = ["missing", None]
     m = ns.get_model(cls)
     out["model_name"] = str(m)
+    # the embedded model is exported metadata too
+    mi = m.inner_type if hasattr(m, "inner_type") else m
+    out["model_consts"] = {c.name: str(c.value.native_value) for c in mi.constants}
+    out["model_port"] = (m.fixed_port_id if m.has_fixed_port_id else None) if not getattr(m, "has_parent_service", False) else "n/a"
+    out["model_fields"] = [f.name for f in mi.fields_except_padding]
     return {"st": "ok", "info": out}
 
 
